@@ -138,6 +138,18 @@ def cases(M):
     yield {"k": "randts", "n": (1000000 if thorough else 100000) // M.nshards, "seed": r.randrange(1 << 30)}
 
 
+_ZONES = ["Europe/Paris", "America/New_York", "Australia/Sydney", "Australia/Lord_Howe", "Pacific/Apia", "Europe/Dublin",
+          "Asia/Kathmandu", "Pacific/Kiritimati", "America/St_Johns", "Africa/Casablanca", "Pacific/Chatham"]
+_EDGES = [(0, 0, 0, 0), (0, 30, 0, 0), (23, 59, 59, 999999), (23, 30, 0, 0), (0, 59, 59, 999999), (1, 0, 0, 0), (12, 0, 0, 0)]
+_TZ = {}
+
+
+def _tz(P, zn):
+    if zn not in _TZ:
+        _TZ[zn] = P.timezone(zn)
+    return _TZ[zn]
+
+
 def _getters(M, P, d, w):
     """judge the eight getters on Date and DateTime for native date d"""
     y, m, dd = d.year, d.month, d.day
@@ -145,7 +157,14 @@ def _getters(M, P, d, w):
     wom = next(i for i, row in enumerate(mc) if dd in row) + 1
     exp = (d.weekday(), d.timetuple().tm_yday, d.isocalendar()[1], wom, calendar.monthrange(y, m)[1], (m - 1) // 3 + 1,
            calendar.isleap(y), dt.date(y, 12, 28).isocalendar()[1] == 53)
-    for kind, x in (("date", P.Date(y, m, dd)), ("datetime", P.DateTime(y, m, dd, 12, tzinfo=P.UTC))):
+    # the getters depend on the calendar date only: a naive value at the last microsecond of the day and a zone-aware one
+    # at a day-edge wall time (zone and wall time rotate with the ordinal) must answer exactly like the plain Date
+    o = d.toordinal()
+    zn = _ZONES[o % len(_ZONES)]
+    hms = _EDGES[(o // len(_ZONES)) % len(_EDGES)]
+    for kind, x in (("date", P.Date(y, m, dd)), ("datetime", P.DateTime(y, m, dd, 12, tzinfo=P.UTC)),
+                    ("datetime-naive", P.DateTime(y, m, dd, 23, 59, 59, 999999)),
+                    ("datetime-zone", P.DateTime(y, m, dd, *hms, tzinfo=_tz(P, zn), fold=o % 2))):
         try:
             got = (int(x.day_of_week), x.day_of_year, x.week_of_year, x.week_of_month, x.days_in_month, x.quarter,
                    x.is_leap_year(), x.is_long_year())
